@@ -96,7 +96,9 @@ fn breaks(i: usize) -> Vec<BreakPeriod> {
     match i {
         0 => vec![],
         1 => vec![b(100.0, 900.0)],
-        _ => vec![b(100.0, 900.0), b(5000.5, 5900.25), b(7000.0, 7000.0)],
+        2 => vec![b(100.0, 900.0), b(5000.5, 5900.25), b(7000.0, 7000.0)],
+        3 => vec![b(-2147483647.0, -2147483000.0), b(400.0, 1000.0)],
+        _ => vec![b(9000.0, 10000.0)],
     }
 }
 
@@ -211,10 +213,10 @@ pub fn all_edits() -> Vec<Edit> {
     v.extend([0.7f32, 0.0, 1e-3, 2147483520.0, -1.5].map(Edit::StackLeniency));
     v.extend([1, 3, 2147483647].map(Edit::CountdownOffset));
     v.extend((0..BOOKMARKS.len()).map(Edit::Bookmarks));
-    v.extend([0.1, 1.25, 2147483647.0, -3.5, 1e-320].map(Edit::DistanceSpacing));
+    v.extend([0.1, 1.25, 2147483647.0, -2147483647.0, -3.5, 1e-320].map(Edit::DistanceSpacing));
     v.extend([4, 0, -3, 2147483647].map(Edit::BeatDivisor));
     v.extend([0, 16, -2147483647].map(Edit::GridSize));
-    v.extend([1.0, 2.5000001, 1e-7, 2147483647.0].map(Edit::TimelineZoom));
+    v.extend([1.0, 2.5000001, 1e-7, 2147483647.0, -2147483647.0].map(Edit::TimelineZoom));
     for f in 0..4u8 {
         for x in [0.0f32, 5.0, 9.3, 10.0, -3.5, 1e-40, 2147483648.0] {
             v.push(Edit::Diff(f, x));
@@ -236,7 +238,7 @@ pub fn all_edits() -> Vec<Edit> {
     v.extend((0..4u8).map(Edit::Countdown));
     v.extend((0..3).map(Edit::ComboColors));
     v.extend((0..3).map(Edit::CustomColors));
-    v.extend((0..3).map(Edit::Breaks));
+    v.extend((0..5).map(Edit::Breaks));
     v
 }
 
@@ -281,6 +283,7 @@ const MODE_INDEPENDENT: [&str; 10] = [
 
 /// Applies the edits to a clone of `map`, encodes, decodes and compares.
 pub fn check(name: &str, map: &Beatmap, edits: &[&Edit], acc: &mut Acc) {
+    let _g = crate::engine::watch::guard("edit", |s| s.push_str(&format!("{name} {edits:?}")));
     acc.evals += 1;
     acc.states += 1;
     acc.transitions += 2;
@@ -290,6 +293,21 @@ pub fn check(name: &str, map: &Beatmap, edits: &[&Edit], acc: &mut Acc) {
         // special_style is only carried in mania: an edit to it is representable only there
         for e in edits {
             e.apply(&mut edited);
+        }
+        // new-combo flags are partly DERIVED from the breaks: the decoder forces the flag on the first
+        // combo-capable object after each break.  Put that expectation into the in-memory map so that the
+        // comparison below is exact (an object starting exactly at a break's end is not after it).
+        if edits.iter().any(|e| matches!(e, Edit::Breaks(_))) {
+            for b in edited.breaks.clone() {
+                if let Some(h) = edited.hit_objects.iter_mut().find(|h| h.start_time > b.end_time) {
+                    match &mut h.kind {
+                        rosu_map::section::hit_objects::HitObjectKind::Circle(c) => c.new_combo = true,
+                        rosu_map::section::hit_objects::HitObjectKind::Slider(s) => s.new_combo = true,
+                        rosu_map::section::hit_objects::HitObjectKind::Spinner(s) => s.new_combo = true,
+                        rosu_map::section::hit_objects::HitObjectKind::Hold(_) => {}
+                    }
+                }
+            }
         }
         let text = edited.encode_to_string().map_err(|e| format!("encode: {e}"))?;
         let mut back = rosu_map::from_str::<Beatmap>(&text).map_err(|e| format!("decode: {e}"))?;
@@ -303,10 +321,8 @@ pub fn check(name: &str, map: &Beatmap, edits: &[&Edit], acc: &mut Acc) {
                     continue;
                 }
                 // data the decoder derives from the edited field is legitimately re-derived:
-                // forced new combos from breaks, slider velocity from the slider multiplier
-                if class == "hit-object" && edits.iter().any(|e| matches!(e, Edit::Breaks(_))) && msg.contains("combo") {
-                    continue;
-                }
+                // slider velocity from the slider multiplier (forced new combos from breaks are
+                // pre-computed above)
                 if class == "slider-velocity" && edits.iter().any(|e| matches!(e, Edit::SliderMultiplier(_))) {
                     continue;
                 }
